@@ -110,3 +110,37 @@ Definition shape_ok (t : tree) (W : list elem) : bool :=
   | _ => nextfree t
   end.
 Definition Fb (prog : rule) : bool := Gb prog && negb (has_next prog).
+
+(* ---- the extended fragment: one next_rule, written last at the top level and without refinements of its own ---- *)
+Fixpoint split_last {A} (l : list A) : option (list A * A) :=
+  match l with
+  | [] => None
+  | [x] => Some ([], x)
+  | x :: l' => match split_last l' with Some (a, y) => Some (x :: a, y) | None => None end
+  end.
+(* prog = Rule cs tg (body' ++ [(KNext, Rule csn tgn [])]) with no next_rule in Rule cs tg body' *)
+Definition split_root_next (prog : rule) : option (rule * list atom * option nat) :=
+  match prog with
+  | Rule cs tg body =>
+      match split_last body with
+      | Some (body', (KNext, Rule csn tgn [])) =>
+          if has_next (Rule cs tg body') then None else Some (Rule cs tg body', csn, tgn)
+      | _ => None
+      end
+  end.
+
+Definition tags_of (r : rule) : list nat := flat_map (fun q => tag_list (r_tag q)) (rules_of r).
+
+(* ... built as written, and the next_rule's conclusion is not the conclusion of another rule (conclusions are identified
+   by their tags in the model) *)
+Definition Fb_next (prog : rule) : bool :=
+  Gb prog &&
+  match split_root_next prog with
+  | Some (prog', _, Some tn) => negb (memb tn (tags_of prog'))
+  | Some (_, _, None) => true
+  | None => false
+  end.
+
+
+(* the proved fragment *)
+Definition Fx (prog : rule) : bool := Fb prog || Fb_next prog.
